@@ -63,6 +63,8 @@ type callPattern struct {
 	recvFunc string // lowered function returning the receiver value
 	iface    *types.Interface
 	dynamic  bool // call of a function value (field or variable of func type)
+	passing  bool // `call passing T($x)`: any call (static, interface or dynamic) with an argument of static type T
+	elemOf   bool // each(X)(args): call of a function value that is an element of the slice X
 	recvCap     string // capture name of the receiver (T($r).M(...))
 	recvCapType string
 	recvCapSuffix string
@@ -87,6 +89,10 @@ type EffectClause struct {
 }
 
 type MethodSelector struct {
+	// funcs having <param> <type>: every function, method and function literal of the package with such a parameter
+	Funcs      bool
+	HavingName string
+	HavingType string
 	RecvName string
 	TypeName string // *T or T
 	Of       string // pkg.Interface (source text) or ""
@@ -97,11 +103,26 @@ type MethodSelector struct {
 
 func parseSelector(rest string) (*MethodSelector, error) {
 	fs := strings.Fields(rest)
+	if len(fs) >= 3 && fs[0] == "having" {
+		// funcs having <param> <type> [matching re] [in ...] [except ...]
+		sel := &MethodSelector{Funcs: true, HavingName: fs[1], HavingType: fs[2]}
+		if err := parseSelectorOpts(sel, fs, 3); err != nil {
+			return nil, err
+		}
+		return sel, nil
+	}
 	if len(fs) < 2 {
 		return nil, fmt.Errorf("methods: need <recvName> <*Type>")
 	}
 	sel := &MethodSelector{RecvName: fs[0], TypeName: fs[1]}
-	for i := 2; i < len(fs); i++ {
+	if err := parseSelectorOpts(sel, fs, 2); err != nil {
+		return nil, err
+	}
+	return sel, nil
+}
+
+func parseSelectorOpts(sel *MethodSelector, fs []string, from int) error {
+	for i := from; i < len(fs); i++ {
 		switch fs[i] {
 		case "of":
 			i++
@@ -113,7 +134,7 @@ func parseSelector(rest string) (*MethodSelector, error) {
 			if i < len(fs) {
 				re, err := regexp.Compile(fs[i])
 				if err != nil {
-					return nil, err
+					return err
 				}
 				sel.Match = re
 			}
@@ -130,10 +151,10 @@ func parseSelector(rest string) (*MethodSelector, error) {
 				sel.Except = m
 			}
 		default:
-			return nil, fmt.Errorf("methods: unexpected %q", fs[i])
+			return fmt.Errorf("methods: unexpected %q", fs[i])
 		}
 	}
-	return sel, nil
+	return nil
 }
 
 func parseEffect(ec *EffectClause, text string) error {
@@ -208,6 +229,24 @@ func parseEffect(ec *EffectClause, text string) error {
 func parsePattern(s string) (*callPattern, error) {
 	p := &callPattern{src: s}
 	s = strings.ReplaceAll(s, "$", "cap_")
+	if strings.HasPrefix(strings.TrimSpace(s), "call passing ") {
+		ex, err := parser.ParseExpr(strings.TrimSpace(strings.TrimPrefix(strings.TrimSpace(s), "call passing ")))
+		if err != nil {
+			return nil, fmt.Errorf("pattern %q: %v", s, err)
+		}
+		x, ok := ex.(*ast.CallExpr)
+		if !ok || len(x.Args) != 1 {
+			return nil, fmt.Errorf("pattern %q: want `call passing T($x)`", s)
+		}
+		id, ok := x.Args[0].(*ast.Ident)
+		if !ok || !strings.HasPrefix(id.Name, "cap_") {
+			return nil, fmt.Errorf("pattern %q: want `call passing T($x)`", s)
+		}
+		p.passing = true
+		p.recvSrc = "_"
+		p.caps = append(p.caps, capture{name: strings.TrimPrefix(id.Name, "cap_"), typ: types.ExprString(x.Fun), pos: -1})
+		return p, nil
+	}
 	callS, resS, hasRes := strings.Cut(s, "->")
 	ex, err := parser.ParseExpr(strings.TrimSpace(callS))
 	if err != nil {
@@ -235,6 +274,15 @@ func parsePattern(s string) (*callPattern, error) {
 		}
 	case *ast.Ident:
 		p.method = f.Name
+	case *ast.CallExpr:
+		// each(X)(args): a call of one of the function values held in the slice X (hook lists)
+		if id, ok := f.Fun.(*ast.Ident); ok && id.Name == "each" && len(f.Args) == 1 {
+			p.recvSrc = types.ExprString(f.Args[0])
+			p.elemOf = true
+			p.dynamic = true
+			break
+		}
+		return nil, fmt.Errorf("pattern %q: unsupported callee", s)
 	default:
 		return nil, fmt.Errorf("pattern %q: unsupported callee", s)
 	}
@@ -296,6 +344,19 @@ func expandTemplates(pkg *packages.Package, cs []*FuncContract) ([]*FuncContract
 			out = append(out, fc)
 			continue
 		}
+		if fc.Sel.Funcs {
+			names, err := funcsHaving(pkg, fc.Sel)
+			if err != nil {
+				return nil, fmt.Errorf("%s:%d: %v", fc.File, fc.Line, err)
+			}
+			if len(names) == 0 {
+				return nil, fmt.Errorf("%s:%d: function selector matches no function", fc.File, fc.Line)
+			}
+			for _, name := range names {
+				out = append(out, instantiateTemplate(fc, name, nil))
+			}
+			continue
+		}
 		tn := strings.TrimPrefix(fc.Sel.TypeName, "*")
 		obj := pkg.Types.Scope().Lookup(tn)
 		if obj == nil {
@@ -350,28 +411,123 @@ func expandTemplates(pkg *packages.Package, cs []*FuncContract) ([]*FuncContract
 			return nil, fmt.Errorf("%s:%d: method selector matches no method", fc.File, fc.Line)
 		}
 		for _, name := range names {
-			cp := *fc
-			cp.Sel = nil
-			cp.Func = "(" + fc.Sel.TypeName + ")." + name
-			cp.sig = sigs[name]
-			cp.invs = map[int][]string{}
-			cp.regions = map[string]string{}
-			cp.posts = nil
-			cp.EffectCl = nil
-			for _, ec := range fc.EffectCl {
-				e2 := *ec
-				ev := *ec.Every
-				e2.Every = &ev
-				if ec.Needs != nil {
-					nd := *ec.Needs
-					e2.Needs = &nd
-				}
-				cp.EffectCl = append(cp.EffectCl, &e2)
-			}
-			out = append(out, &cp)
+			out = append(out, instantiateTemplate(fc, "("+fc.Sel.TypeName+")."+name, sigs[name]))
 		}
 	}
 	return out, nil
+}
+
+func instantiateTemplate(fc *FuncContract, funcName string, sig *types.Signature) *FuncContract {
+	cp := *fc
+	cp.Sel = nil
+	cp.Func = funcName
+	cp.sig = sig
+	cp.invs = map[int][]string{}
+	cp.regions = map[string]string{}
+	cp.posts = nil
+	cp.EffectCl = nil
+	for _, ec := range fc.EffectCl {
+		e2 := *ec
+		ev := *ec.Every
+		e2.Every = &ev
+		if ec.Needs != nil {
+			nd := *ec.Needs
+			e2.Needs = &nd
+		}
+		e2.MoreNeeds = nil
+		for _, mn := range ec.MoreNeeds {
+			m2 := *mn
+			e2.MoreNeeds = append(e2.MoreNeeds, &m2)
+		}
+		cp.EffectCl = append(cp.EffectCl, &e2)
+	}
+	return &cp
+}
+
+// funcsHaving lists (by the names go/ssa gives them) the functions, methods and function literals of the package
+// that declare a parameter of the selector's name and type.
+func funcsHaving(pkg *packages.Package, sel *MethodSelector) ([]string, error) {
+	want, err := evalType(pkg, sel.HavingType)
+	if err != nil {
+		return nil, err
+	}
+	has := func(ft *ast.FuncType) bool {
+		if ft.Params == nil {
+			return false
+		}
+		for _, fld := range ft.Params.List {
+			for _, n := range fld.Names {
+				if n.Name == sel.HavingName && types.Identical(pkg.TypesInfo.TypeOf(fld.Type), want) {
+					return true
+				}
+			}
+		}
+		return false
+	}
+	var names []string
+	add := func(name string) {
+		short := name
+		if i := strings.LastIndex(name, ")."); i >= 0 {
+			short = name[i+2:]
+		}
+		if sel.Match != nil && !sel.Match.MatchString(name) {
+			return
+		}
+		if sel.In != nil && !sel.In[name] && !sel.In[short] {
+			return
+		}
+		if sel.Except[name] || sel.Except[short] {
+			return
+		}
+		names = append(names, name)
+	}
+	var walkLits func(node ast.Node, prefix string)
+	walkLits = func(node ast.Node, prefix string) {
+		for n := 1; ; n++ {
+			lit := nthFuncLit(node, n)
+			if lit == nil {
+				return
+			}
+			name := fmt.Sprintf("%s$%d", prefix, n)
+			if has(lit.Type) {
+				add(name)
+			}
+			walkLits(lit.Body, name)
+		}
+	}
+	for _, f := range pkg.Syntax {
+		fname := pkg.Fset.Position(f.Pos()).Filename
+		if strings.HasSuffix(fname, "_test.go") || strings.Contains(fname, "zz_") {
+			continue
+		}
+		for _, d := range f.Decls {
+			fd, ok := d.(*ast.FuncDecl)
+			if !ok || fd.Body == nil {
+				continue
+			}
+			name := fd.Name.Name
+			if fd.Recv != nil && len(fd.Recv.List) == 1 {
+				t := fd.Recv.List[0].Type
+				star := ""
+				if s, ok := t.(*ast.StarExpr); ok {
+					t = s.X
+					star = "*"
+				}
+				if ix, ok := t.(*ast.IndexExpr); ok {
+					t = ix.X
+				}
+				if id, ok := t.(*ast.Ident); ok {
+					name = "(" + star + id.Name + ")." + name
+				}
+			}
+			if has(fd.Type) {
+				add(name)
+			}
+			walkLits(fd.Body, name)
+		}
+	}
+	sort.Strings(names)
+	return names, nil
 }
 
 func evalType(pkg *packages.Package, src string) (types.Type, error) {
@@ -412,7 +568,28 @@ func (lc *lowerCtx) lowerEffects(fc *FuncContract, body *strings.Builder, checkP
 				continue
 			}
 			var sig *types.Signature
-			if p.recvSrc != "" && p.recvSrc != "_" {
+			if p.elemOf {
+				rex, _ := parser.ParseExpr(p.recvSrc)
+				rt, _, err := checkPos(rex)
+				if err != nil {
+					return fmt.Errorf("pattern %q: %v", p.src, err)
+				}
+				sl, ok := rt.Underlying().(*types.Slice)
+				if !ok {
+					return fmt.Errorf("pattern %q: each() needs a slice of function values", p.src)
+				}
+				fs, ok := sl.Elem().Underlying().(*types.Signature)
+				if !ok {
+					return fmt.Errorf("pattern %q: each() needs a slice of function values", p.src)
+				}
+				sig = fs
+				p.recvFunc = fmt.Sprintf("verif_effrecv_%d_%d_%s", k, pi, base)
+				ps, err := lc.paramList(lc.usedNames(rex), "requires", nil)
+				if err != nil {
+					return err
+				}
+				fmt.Fprintf(body, "func %s(%s) %s {\n\treturn %s\n}\n\n", p.recvFunc, ps, types.TypeString(rt, lc.g.qualifier), p.recvSrc)
+			} else if p.recvSrc != "" && p.recvSrc != "_" {
 				rex, _ := parser.ParseExpr(p.recvSrc)
 				rt, info, err := checkPos(rex)
 				_ = info
@@ -550,7 +727,13 @@ func (lc *lowerCtx) lowerEffects(fc *FuncContract, body *strings.Builder, checkP
 		}
 		// old(e) inside a where condition is e evaluated in the entry state of the function
 		var olds []string
-		where, olds = extractOlds(where)
+		ifCond := ec.If
+		{
+			joined, os := extractOlds(where + " §§ " + ifCond)
+			olds = os
+			where, ifCond, _ = strings.Cut(joined, " §§ ")
+			ifCond = strings.TrimSpace(ifCond)
+		}
 		ec.oldFns = nil
 		for oi, oe := range olds {
 			oex, err := parser.ParseExpr(oe)
@@ -570,7 +753,7 @@ func (lc *lowerCtx) lowerEffects(fc *FuncContract, body *strings.Builder, checkP
 			ec.oldFns = append(ec.oldFns, ofn)
 			capTypes[fmt.Sprintf("gocvold_%d", oi)] = types.TypeString(ot, lc.g.qualifier)
 		}
-		for ci, cond := range []string{where, ec.If} {
+		for ci, cond := range []string{where, ifCond} {
 			if ci == 1 && cond == "" {
 				continue
 			}
@@ -626,6 +809,19 @@ type matchInfo struct {
 
 func (e *Engine) matchPattern(sp *ssa.Package, p *callPattern, ev Event, prov func(string) (Val, bool)) (*matchInfo, bool) {
 	mi := &matchInfo{cond: "true", caps: map[string]Val{}}
+	if p.passing {
+		c := p.caps[0]
+		for i, at := range ev.ArgTypes {
+			if at == nil || i >= len(ev.Args) {
+				continue
+			}
+			if canonType(at) == c.canon {
+				mi.caps["cap_"+c.name] = ev.Args[i]
+				return mi, true
+			}
+		}
+		return nil, false
+	}
 	if p.dynamic {
 		if ev.Callee != "<dynamic>" || ev.RecvT == "" {
 			return nil, false
@@ -635,13 +831,29 @@ func (e *Engine) matchPattern(sp *ssa.Package, p *callPattern, ev Event, prov fu
 			return nil, false
 		}
 		rv := e.pureCallIn(sp, rf, e.bindLowered(rf, prov), nil, e.entryState)[0]
-		rt, ok := rv.(OpaqueV)
-		if !ok {
-			return nil, false
-		}
-		mi.cond = eq(rt.T, ev.RecvT)
-		if mi.cond == "false" {
-			return nil, false
+		if p.elemOf {
+			sv, ok := rv.(SliceV)
+			if !ok || sv.Arr == nil {
+				return nil, false
+			}
+			leafT, ok := e.arr(e.entryState, sv.Arr)[".u"]
+			if !ok {
+				return nil, false
+			}
+			// provenance, not value: the called function value was read out of that very slice (a function value may
+			// be registered in two hook lists; which list is being run is a matter of where the value was loaded from)
+			if !strings.HasPrefix(e.expandDefs(ev.RecvT), "(select "+e.expandDefs(leafT)+" ") {
+				return nil, false
+			}
+		} else {
+			rt, ok := rv.(OpaqueV)
+			if !ok {
+				return nil, false
+			}
+			mi.cond = eq(rt.T, ev.RecvT)
+			if mi.cond == "false" {
+				return nil, false
+			}
 		}
 	} else if p.static != "" {
 		if ev.Static == nil || (staticFullName(ev.Static) != p.static && ev.Static.String() != p.static) {
@@ -832,6 +1044,9 @@ func (e *Engine) effectObligations(sp *ssa.Package, fc *FuncContract, fn *ssa.Fu
 					if v, ok := mi.caps[name]; ok {
 						return e.thaw(v), true
 					}
+					if v, ok := olds[name]; ok {
+						return v, true
+					}
 					return prov(name)
 				})
 				stf := ev.St
@@ -884,8 +1099,9 @@ func (e *Engine) effectObligations(sp *ssa.Package, fc *FuncContract, fn *ssa.Fu
 					xg, xr := e.expandDefs(goal), e.expandDefs(reach)
 					for _, sym := range e.loopIdxSyms {
 						if containsSym(xg, sym) && !containsSym(xr, sym) {
-							xg = replaceSym(xg, sym, "(- 1)")
-							goal = xg
+							// stated as a hypothesis (equivalent to substituting it in the goal, since the obliged event
+							// does not depend on it) so that shared definitions stay shared
+							reach = and(reach, "(= "+sym+" (- 1))")
 						}
 					}
 				}
